@@ -212,29 +212,64 @@ Theorem function_ref_application_all : forall st k a b, f_bound st = Some k -> (
   fexec st (FCopyCall a b) = fexec st (FCall a b) /\
   f_bound (fst (fapply st k a b)) = Some k.
 Proof.
-  intros st k a b B Hk. cbn [fexec]. rewrite B. unfold fcallable. assert (Nat.ltb k 3 = true) as -> by (apply Nat.ltb_lt; lia).
+  intros st k a b B Hk. cbn [fexec]. unfold fcall_via. rewrite B. unfold fcallable.
+  assert (Nat.ltb k 3 = true) as -> by (apply Nat.ltb_lt; lia).
   destruct (fapply st k a b) as [st' r] eqn:E. cbn [fst snd]. repeat split.
   unfold fapply in E. destruct k as [|[|k]]; inversion E; subst; cbn; auto.
 Qed.
 
-Lemma spec_frun_ok ops : forall st, spec_frun (f_bound st) (f_calls st) (f_acc st) ops (frun st ops) = [].
+(* a copy refers to the callable its source referred to when the copy was made: an empty source gives an empty copy,
+   re-binding or destroying the source afterwards does not change what the copy calls *)
+Theorem function_ref_copy_all : forall st k m, f_bound st = Some k -> (m < 3)%nat ->
+  let st1 := fst (fexec st (FCopy m)) in
+  f_copy st1 = Some k /\
+  snd (fexec st1 FBoolC) = [tbool (fcallable k)] /\
+  (forall k', f_copy (fst (fexec st1 (FBind k'))) = Some k) /\
+  f_copy (fst (fexec st1 FDrop)) = Some k /\
+  (forall a b, fexec st1 (FCallC a b) = fcall_via st1 (Some k) a b) /\
+  (forall k' a b, (k' < 5)%nat -> snd (fexec (fst (fexec st1 (FBind k'))) (FCallC a b)) = snd (fexec st1 (FCallC a b))).
+Proof.
+  intros st k m B Hm. cbn [fexec]. rewrite B. assert (Nat.ltb m 3 = true) as -> by (apply Nat.ltb_lt; lia).
+  cbn [fst snd f_copy fbool_via]. repeat split.
+  - intros k'. destruct (Nat.ltb k' 5); reflexivity.
+  - intros k' a b Hk. assert (Nat.ltb k' 5 = true) as -> by (apply Nat.ltb_lt; lia). cbn [fst f_copy].
+    unfold fcall_via. destruct (fcallable k); [|reflexivity]. unfold fapply. destruct k as [|[|k]]; reflexivity.
+Qed.
+Example function_ref_copy_example :
+  snd (fexec (fst (fexec (fst (fexec (fst (fexec finit (FBind 1))) (FCopy 0))) (FBind 0))) (FCallC 5 1)) = [TZ 3] /\
+  snd (fexec (fst (fexec (fst (fexec finit (FBind 3))) (FCopy 0))) FBoolC) = [TZ 0].
+Proof. split; reflexivity. Qed.
+
+Lemma fexec_spec st op :
+  spec_fstep (f_bound st) (f_copy st) (f_calls st) (f_acc st) op =
+  (f_bound (fst (fexec st op)), f_copy (fst (fexec st op)), f_calls (fst (fexec st op)), f_acc (fst (fexec st op)),
+   snd (fexec st op)).
+Proof.
+  assert (C : forall t a b, spec_fcall t (f_calls st) (f_acc st) a b =
+              (f_calls (fst (fcall_via st t a b)), f_acc (fst (fcall_via st t a b)), snd (fcall_via st t a b)) /\
+              f_bound (fst (fcall_via st t a b)) = f_bound st /\ f_copy (fst (fcall_via st t a b)) = f_copy st).
+  { intros t a b. unfold spec_fcall, fcall_via, fcallable. destruct t as [k|]; [|repeat split].
+    destruct (Nat.ltb k 3); [|repeat split]. unfold call_ref, fapply. destruct k as [|[|k]]; repeat split. }
+  destruct op; cbn [spec_fstep fexec].
+  - destruct (Nat.ltb k 5); reflexivity.
+  - destruct (C (f_bound st) a b) as (E & E1 & E2). rewrite E, E1, E2. reflexivity.
+  - destruct (C (f_bound st) a b) as (E & E1 & E2). rewrite E, E1, E2. reflexivity.
+  - unfold spec_fbool, fbool_via. destruct (f_bound st) eqn:B; cbn [fst snd]; rewrite ?B; reflexivity.
+  - destruct (f_bound st) eqn:B; [destruct (Nat.ltb m 3)|]; cbn [fst snd f_bound f_copy f_calls f_acc]; rewrite ?B; reflexivity.
+  - destruct (C (f_copy st) a b) as (E & E1 & E2). rewrite E, E1, E2. reflexivity.
+  - unfold spec_fbool, fbool_via. destruct (f_copy st) eqn:B; cbn [fst snd]; rewrite ?B; reflexivity.
+  - reflexivity.
+Qed.
+
+Lemma spec_frun_ok ops : forall st, spec_frun (f_bound st) (f_copy st) (f_calls st) (f_acc st) ops (frun st ops) = [].
 Proof.
   induction ops as [|op ops IH]; intros st; cbn [frun spec_frun]; auto.
-  destruct op as [k|a b|a b|]; cbn [fexec].
-  - destruct (Nat.ltb k 5); cbn [fobs]; rewrite toks_eqb_refl; cbn [app check]; apply (IH (mkf _ _ _)) || apply IH.
-  - destruct (f_bound st) as [k|] eqn:B; [|cbn [fobs]; rewrite toks_eqb_refl; cbn [app check]; rewrite <- B; apply IH].
-    unfold fcallable. destruct (Nat.ltb k 3) eqn:K; [|cbn [fobs]; rewrite toks_eqb_refl; cbn [app check]; rewrite <- B; apply IH].
-    unfold fapply, call_ref. destruct k as [|[|k]]; cbn [fobs f_calls f_acc]; rewrite toks_eqb_refl; cbn [app check];
-      rewrite <- B; apply (IH (mkf _ _ _)) || apply IH.
-  - destruct (f_bound st) as [k|] eqn:B; [|cbn [fobs]; rewrite toks_eqb_refl; cbn [app check]; rewrite <- B; apply IH].
-    unfold fcallable. destruct (Nat.ltb k 3) eqn:K; [|cbn [fobs]; rewrite toks_eqb_refl; cbn [app check]; rewrite <- B; apply IH].
-    unfold fapply, call_ref. destruct k as [|[|k]]; cbn [fobs f_calls f_acc]; rewrite toks_eqb_refl; cbn [app check];
-      rewrite <- B; apply (IH (mkf _ _ _)) || apply IH.
-  - destruct (f_bound st) as [k|] eqn:B; cbn [fobs]; rewrite toks_eqb_refl; cbn [app check]; rewrite <- B; apply IH.
+  rewrite fexec_spec. destruct (fexec st op) as [st' res]. cbn [fst snd]. unfold fobs.
+  rewrite toks_eqb_refl. cbn [checkb app]. apply IH.
 Qed.
 
 Theorem model_meets_spec_fr : forall ops, spec_fr ops (frun finit ops ++ [[tag "std"; TZ 1]]) = [].
 Proof.
   intros ops. unfold spec_fr. rewrite removelast_last, last_last.
-  pose proof (spec_frun_ok ops finit) as H. cbn [finit f_bound f_calls f_acc] in H. rewrite H. reflexivity.
+  pose proof (spec_frun_ok ops finit) as H. cbn [finit f_bound f_copy f_calls f_acc] in H. rewrite H. reflexivity.
 Qed.
